@@ -973,7 +973,7 @@ func runTimer(a *Analyzer, r *Results) {
 				ok = false
 			}
 		}
-		r.Check("T11", props("C19", "C16"), "the election scheduler is armed and stopped only by the term (worker goroutine), never by the main loop or the timer goroutine", m, "-", ok, fmtf("callers: %v", callers), "W")
+		r.Check("T11", props("C19", "C16", "C14"), "the election scheduler is armed and stopped only by the term (worker goroutine), never by the main loop or the timer goroutine", m, "-", ok, fmtf("callers: %v", callers), "W")
 	}
 }
 
